@@ -88,6 +88,7 @@ def ensure_model_bins():
     d = f"{CACHE}/extract-{key}"
     if os.path.exists(d + "/ok"): return d
     os.makedirs(d, exist_ok=True)
+    ok_all, log_all = coq_make()          # extraction needs the compiled model and validators, whatever property is being checked
     rc, out, _ = sh(f"coqc -Q {COQ} Ctpg {COQ}/Extract/Extract.v", cwd=d, timeout=600)
     if rc: raise Broken("extraction failed: " + out[-2000:])
     for f in os.listdir(VERIF + "/harness/ml"): shutil.copy(VERIF + "/harness/ml/" + f, d)
